@@ -215,8 +215,9 @@ def shrink(tape, still, budget):
     return cur
 
 
-def worker_main(check_name, fn, default_tier="quick"):
-    """fn(run) executes one simulated run. Environment protocol as the Go workers."""
+def worker_main(check_name, fn, default_tier="quick", tape_for_run=None):
+    """fn(run) executes one simulated run. Environment protocol as the Go workers.
+    tape_for_run(run_index, tier) may return a prefilled tape (systematic enumeration) or None (seeded PRNG)."""
     env = os.environ
     tier = env.get("VERIF_TIER", default_tier)
     known = load_known(env.get("VERIF_KNOWN", ""))
@@ -273,7 +274,8 @@ def worker_main(check_name, fn, default_tier="quick"):
             summ["infra"].append("watchdog: stopped at run %d" % run)
             break
         keep = len(summ["samples"]) < 3 and run - lo < 3
-        r = execute(Tape(seed=run_seed(seed, check_name, run)), keep)
+        pre = tape_for_run(run, tier) if tape_for_run else None
+        r = execute(Tape(replay=pre) if pre is not None else Tape(seed=run_seed(seed, check_name, run)), keep)
         summ["runs"] += 1
         if dump:
             dump.write("%d %s %s %d\n" % (run, r.h.hexdigest()[:16], r.verdict, len(r.tape.recorded())))
